@@ -29,13 +29,20 @@ RULE = ("a run = one mapper lineage (1 root + 0-4 copies / copies with mapped CS
 STATE_MEASURE = "digest of every live mapper's (name, text) assignment list after each op"
 REAL = ["pymbolic.mapper.c_code.CCodeMapper and the stringifier classes it inherits",
         "pymbolic.mapper.stringifier.CSESplittingStringifyMapperMixin",
-        "pymbolic EvaluationMapper (value reference)", "gcc -O0 -fwrapv and libm"]
+        "pymbolic EvaluationMapper (value reference)", "gcc -O0 -fwrapv and libm",
+        "g++ -O0 and libstdc++ <complex> for programs with complex constants"]
 STUBS = ["a user node class the mapper cannot print (unsupported_node fault)",
          "the C harness around the emitted text (declarations, printf)"]
 ASSUMPTIONS = [
     "only the fragment described in DESIGN.md is generated: no bitwise operators/shifts, no "
-    "bool or complex constants, integer programs use long long with non-negative operands "
-    "for // and %, floating programs use double and float constants only",
+    "bool constants, integer programs use long long with non-negative operands "
+    "for // and %, floating programs use double and float constants only; complex constants "
+    "(printed as std::complex<double>, which is C++) get programs of their own, compiled with "
+    "g++: double variables, float and complex constants, no integer constant next to a complex "
+    "value, no conditionals",
+    "constants of the narrow numpy integer types: a program is compared only if the stock "
+    "evaluator, with numpy's overflow signalling set to raise, returns the value that exact "
+    "integer arithmetic gives (numpy wraps within int8/int16 where C computes in long long)",
     "programs whose reference evaluation leaves the safe range, divides by zero, has a "
     "negative // or % operand, or is ill-conditioned (value moves > 1e-9 relative when "
     "inputs move 1e-13) are compiled but their values are not compared; they are counted",
@@ -47,7 +54,7 @@ EXPECTED_PROBES = ["copies_after_assignment", "repeated_prefix", "wrapper_reused
                    "wrapper_first_seen_in_copy_then_parent", "nested_wrappers",
                    "unsupported_node_faults", "int_values_compared", "float_values_compared",
                    "mapped_cse_copies", "prefix_collides_with_generated_name",
-                   "mixed_emissions"]
+                   "mixed_emissions", "complex_values_compared"]
 
 BUILD_DIR = os.path.join(os.path.dirname(os.path.dirname(os.path.abspath(__file__))), "build")
 
@@ -62,13 +69,70 @@ class _FragGen:
         self.r, self.kind, self.pool, self.max_depth = r, kind, pool, max_depth
 
     def var(self):
-        return ["n", "Variable", [["s", self.r.choice(FLT_VARS if self.kind == "float" else INT_VARS)]]]
+        return ["n", "Variable", [["s", self.r.choice(
+            FLT_VARS if self.kind in ("float", "cplx") else INT_VARS)]]]
+
+    def real_expr(self):
+        """(cplx kind) a small expression that is real whatever the pool holds"""
+        r = self.r
+
+        def leaf():
+            return self.var() if r.random() < 0.6 else ["f", repr(r.choice([0.5, 1.5, 2.0, -0.75]))]
+        if r.random() < 0.5:
+            return leaf()
+        return ["n", r.choice(["Sum", "Product"]), [["t", [leaf(), leaf()]]]]
+
+    def cplx_expr(self, d):
+        """(cplx kind) double variables, float and complex constants; no integer constant
+        meets a complex value (C++ has no complex<double> op int), no conditionals"""
+        r = self.r
+        e = self.expr
+        o = r.choice(["sum", "prod", "sub", "pow", "neg", "quot", "quot", "gpow", "gpow", "call"])
+        if o == "sum":
+            return ["n", "Sum", [["t", [e(d + 1) for _ in range(r.randint(2, 3))]]]]
+        if o == "prod":
+            return ["n", "Product", [["t", [e(d + 1) for _ in range(r.randint(2, 3))]]]]
+        if o == "sub":
+            neg = ["n", "Product", [["t", [["i", -1]] + [e(d + 1) for _ in range(r.randint(1, 2))]]]]
+            items = [e(d + 1), neg] + ([e(d + 1)] if r.random() < 0.3 else [])
+            r.shuffle(items)
+            return ["n", "Sum", [["t", items]]]
+        if o == "neg":
+            return ["n", "Product", [["t", [["f", "-1.0"], e(d + 1)]]]]
+        if o == "pow":
+            return ["n", "Power", [e(d + 1), ["i", r.choice([1, 2, 2])]]]
+        if o == "quot":
+            return ["n", "Quotient", [e(d + 1), e(d + 1)]]
+        if o == "gpow":
+            if r.random() < 0.5:
+                # a complex constant as the base: its imaginary part decides the branch
+                base = ["c", repr(r.choice([-4.0, -1.0, 2.0, -0.25, 0.5])),
+                        repr(r.choice([0.0, 0.0, 0.0, 1.0, -2.0]))]
+                return ["n", "Power", [base, r.choice([["f", "0.5"], ["f", "1.5"], ["i", 3],
+                                                       ["f", "-1.0"], ["f", "0.25"]])]]
+            base = ["n", "Sum", [["t", [["n", "Call", [["n", "Variable", [["s", "fabs"]]],
+                                                       ["t", [self.real_expr()]]]], ["f", "0.5"]]]]]
+            return ["n", "Power", [base, r.choice([["f", "0.5"], ["f", "1.5"], ["i", 3],
+                                                   ["f", "-1.0"], e(d + 1)])]]
+        return ["n", "Call", [["n", "Variable", [["s", r.choice(["sin", "cos", "exp"])]]],
+                              ["t", [e(d + 1)]]]]
 
     def const(self):
         r = self.r
+        if self.kind == "cplx":
+            if r.random() < 0.3:
+                return ["c", repr(r.choice([-4.0, -1.0, 0.5, 2.0, -0.75])),
+                        repr(r.choice([0.0, 0.0, 1.0, -2.0, 0.5]))]
+            return ["f", repr(r.choice([0.5, 1.5, 2.0, 3.25, -1.0, -0.75, 4.0, 0.125]))]
         if r.random() < 0.06 and self.kind in ("int", "float"):
             # numpy scalars are constants as well
             if self.kind == "int":
+                if r.random() < 0.4:
+                    # the ends of the narrow integer types (negating the lower end overflows
+                    # within the type)
+                    return r.choice([["np", "int8", "-128"], ["np", "int8", "127"],
+                                     ["np", "int16", "-32768"], ["np", "int16", "32767"],
+                                     ["np", "int32", "-2147483647"], ["np", "uint8", "255"]])
                 return ["np", "int64", repr(r.choice([1, 2, 3, 6, -2]))]
             if r.random() < 0.4:
                 # single / half precision scalars, powers of two only (exact in any precision)
@@ -96,6 +160,17 @@ class _FragGen:
             if r.random() < 0.6:
                 return ["n", "If", [self.cond(d + 1), self.expr(d + 1), self.expr(d + 1)]]
             return self.expr(d + 1)
+        if self.kind == "int" and r.random() < 0.12:
+            # a division guarded by a short-circuiting test of its divisor: C and the evaluator
+            # both stop at the guard when the divisor is zero
+            v = self.var()
+            div = ["n", r.choice(["Remainder", "FloorDiv"]), [self.expr(d + 1), v]]
+            test = ["n", "Comparison", [div, ["s", r.choice(spec.OPS)], self.expr(d + 1)]]
+            if r.random() < 0.5:
+                guard = ["n", "Comparison", [v, ["s", r.choice(["!=", ">"])], ["i", 0]]]
+                return ["n", "LogicalAnd", [["t", [guard, test]]]]
+            guard = ["n", "Comparison", [v, ["s", r.choice(["==", "<="])], ["i", 0]]]
+            return ["n", "LogicalOr", [["t", [guard, test]]]]
         if d >= self.max_depth or x < 0.6:
             return ["n", "Comparison", [self.expr(d + 1), ["s", r.choice(spec.OPS)],
                                         self.expr(d + 1)]]
@@ -129,6 +204,8 @@ class _FragGen:
         if r.random() < 0.18:
             return self.wrap(self.expr(d + 1))
         k = self.kind
+        if k == "cplx":
+            return self.cplx_expr(d)
         ops = ["sum", "prod", "sub", "pow", "pow", "if", "neg"]
         if k == "int":
             ops += ["fdiv", "rem", "fdiv", "rem", "min", "max", "cmp"]
@@ -139,7 +216,12 @@ class _FragGen:
         o = r.choice(ops)
         e = self.expr
         if o == "sum":
-            return ["n", "Sum", [["t", [e(d + 1) for _ in range(r.randint(2, 3))]]]]
+            kids = [e(d + 1) for _ in range(r.randint(2, 3))]
+            if k == "int" and r.random() < 0.05:
+                kids.insert(r.randrange(len(kids) + 1),
+                            r.choice([["np", "int8", "-128"], ["np", "int16", "-32768"],
+                                      ["np", "int8", "127"]]))
+            return ["n", "Sum", [["t", kids]]]
         if o == "prod" and self.subclasses and r.random() < 0.25:
             return ["n", "SubProd", [["t", [e(d + 1) for _ in range(r.randint(2, 3))]]]]
         if o == "prod":
@@ -270,7 +352,7 @@ def _strip_cse(t):
 
 def generate(seed, tier):
     r = random.Random(seed)
-    kind = r.choice(["int", "float", "mixed"])
+    kind = r.choices(["int", "float", "mixed", "cplx"], weights=[10, 10, 10, 3])[0]
     mixin = r.random() < 0.12
     fault_run = r.random() < 0.2
     pool = []
@@ -288,7 +370,7 @@ def generate(seed, tier):
     for k in range(min(2, npool)):
         # unequal twins with an equal hash (-1 <-> -2) -- also as wrapped children
         tw = spec.collide_variant(r, ops[k][2], allowed=[])
-        if tw is not None and r.random() < 0.5:
+        if tw is not None and r.random() < 0.5 and kind != "cplx":
             ops.append(["def", f"e{len(pool)}", tw])
             pool.append(f"e{len(pool)}")
     if kind == "mixed":
@@ -299,7 +381,7 @@ def generate(seed, tier):
                 ops.append(["def", f"e{len(pool)}", tw])
                 pool.append(f"e{len(pool)}")
     if kind in ("int", "mixed"):
-        env = {v: ["i", r.randint(0, 12)] for v in INT_VARS}
+        env = {v: ["i", 0 if r.random() < 0.15 else r.randint(0, 12)] for v in INT_VARS}
     else:
         env = {v: ["f", repr(round(r.uniform(-3, 3), 3))] for v in FLT_VARS}
     prefix = r.choice(["_cse", "_cse", "_cse", "tmp_", "_c"])
@@ -487,8 +569,13 @@ def _make_ref_evaluator():
             elif isinstance(v, float) and not (abs(v) < 1e12):
                 self.bad.append("float-range")
             elif isinstance(v, complex):
-                self.bad.append("complex")
+                if not self.allow_complex:
+                    self.bad.append("complex")
+                elif not (abs(v) < 1e12):
+                    self.bad.append("float-range")
             return v
+
+        allow_complex = False
 
         rec = __call__
 
@@ -518,13 +605,16 @@ def _make_ref_evaluator():
             return EvaluationMapper.map_logical_not(self, expr)
 
         def map_logical_and(self, expr):
+            # operand by operand, stopping where the evaluator (and C) stop
             for ch in expr.children:
-                self._truth(self.rec(ch))
+                if not self._truth(self.rec(ch)):
+                    break
             return EvaluationMapper.map_logical_and(self, expr)
 
         def map_logical_or(self, expr):
             for ch in expr.children:
-                self._truth(self.rec(ch))
+                if self._truth(self.rec(ch)):
+                    break
             return EvaluationMapper.map_logical_or(self, expr)
 
         def map_min(self, expr):
@@ -579,6 +669,17 @@ def execute(scenario, open_sigs):
     fenv = dict(env)
     fenv.update({"sin": math.sin, "cos": math.cos, "exp": math.exp, "fabs": abs})
     Ref = _make_ref_evaluator()
+    if kind == "cplx":
+        import cmath
+
+        def lift(fr, fc):
+            return lambda v: fc(v) if isinstance(v, complex) else fr(v)
+        fenv.update({"sin": lift(math.sin, cmath.sin), "cos": lift(math.cos, cmath.cos),
+                     "exp": lift(math.exp, cmath.exp)})
+
+        class RefC(Ref):
+            allow_complex = True
+        Ref = RefC
 
     events, known, probes, faults, states = [], [], {}, {}, set()
     violation = None
@@ -869,6 +970,21 @@ def _expectation(Ref, e, kind, env, fenv, probes):
     ok = v is not None and not bad
     if ok and kind == "mixed":
         return ["float", float(v), True]       # exact arithmetic by construction
+    if ok and kind == "cplx":
+        ctx2 = dict(ctx)
+        for name in env:
+            ctx2[name] = ctx[name] * (1 + 1e-13)
+        cv = complex(v)
+        good = True
+        for c2, kw in ((ctx2, {}), (ctx, {"reverse": False, "naive": True}),
+                       (ctx, {"reverse": True, "naive": True})):
+            v2, bad2 = _ref_value(Ref, e, c2, **kw)
+            if v2 is None or bad2 or abs(complex(v2) - cv) > 1e-9 * max(1.0, abs(cv)):
+                good = False
+        if not good:
+            probes["discard_ill_conditioned"] = probes.get("discard_ill_conditioned", 0) + 1
+            return ["illcond", None, True]
+        return ["cplx", [cv.real, cv.imag], True]
     if ok and kind == "float":
         # conditioning filter
         ctx2 = dict(ctx)
@@ -887,6 +1003,23 @@ def _expectation(Ref, e, kind, env, fenv, probes):
             return ["illcond", None, True]
         return ["float", fv, True]
     if ok:
+        # constants of the narrow numpy integer types make the evaluator's arithmetic wrap (or
+        # signal overflow) within the type where C computes in long long: such programs are
+        # compiled but not compared.  The stock evaluator decides, with numpy's overflow
+        # signalling switched to raising.
+        import numpy as np
+        import warnings
+        from pymbolic.mapper.evaluator import EvaluationMapper
+        try:
+            with np.errstate(all="raise"), warnings.catch_warnings():
+                warnings.simplefilter("error")
+                vf = EvaluationMapper(dict(fenv))(e)
+            same = int(vf) == int(v)
+        except Exception:  # noqa: BLE001
+            same = False
+        if not same:
+            probes["discard_narrow_int_wraps"] = probes.get("discard_narrow_int_wraps", 0) + 1
+            return ["discard", None, False]
         return ["int", int(v), True]
     key = "discard_" + (bad[0] if bad else "none").split(":")[0]
     probes[key] = probes.get(key, 0) + 1
@@ -896,7 +1029,7 @@ def _expectation(Ref, e, kind, env, fenv, probes):
 def _build_post(ms, kind, env, fenv, Ref, p, probes):
     """C functions for every mapper that emitted something, with expected values."""
     from pymbolic.mapper.c_code import CCodeMapper
-    ctype = "double" if kind == "float" else "long long"
+    ctype = "double" if kind in ("float", "cplx") else "long long"
     funcs = []
     nontrivial = False
     total_assign = 0
@@ -916,7 +1049,7 @@ def _build_post(ms, kind, env, fenv, Ref, p, probes):
         ctx = dict(fenv)
         body = []
         for v, val in sorted(env.items()):
-            body.append(f"  {ctype} {v} = {val!r};" if kind == "float"
+            body.append(f"  {ctype} {v} = {val!r};" if kind in ("float", "cplx")
                         else f"  {ctype} {v} = {val};")
         runnable = True
         # names promised through copy_with_mapped_cses: define them from a fresh mapper's text
@@ -939,6 +1072,8 @@ def _build_post(ms, kind, env, fenv, Ref, p, probes):
                 ct = {"int": "long long", "float": "double"}.get(ctype_obj(child, p))
                 if ct is None:
                     return None, False
+            if kind == "cplx":
+                ct = "auto"         # C++: double or std::complex<double>
             body.append(f"  {ct} {nm} = {txt};")
         entries = [(n, t) for n, t in m.obj.cse_name_list if isinstance(t, str)]
         total_assign += len(entries)
@@ -948,6 +1083,8 @@ def _build_post(ms, kind, env, fenv, Ref, p, probes):
                 name_type[nm] = {"int": "long long", "float": "double"}.get(ctype_obj(child, p))
         for n, t in entries:
             ct = name_type.get(n, ctype) if kind == "mixed" else ctype
+            if kind == "cplx":
+                ct = "auto"
             if ct is None:
                 runnable = False       # hoisted while a faulted emission was under way
                 ct = "double"
@@ -964,6 +1101,10 @@ def _build_post(ms, kind, env, fenv, Ref, p, probes):
             fmt = "%lld" if kind == "int" else "%.17g"
             cast = "(long long)" if kind == "int" else "(double)"
             guard = "" if ok else "if (0) "
+            if kind == "cplx":
+                body.append(f'  {guard}{{ std::complex<double> r_ = ({text}); '
+                            f'printf("@FN@ {j} %.17g %.17g\\n", r_.real(), r_.imag()); }}')
+                continue
             body.append(f'  {guard}printf("@FN@ {j} {fmt}\\n", {cast}({text}));')
         funcs.append({"mapper": mid, "body": body, "runnable": runnable, "expects": expects,
                       "texts": [t for t, _, _ in m.emitted]})
@@ -984,11 +1125,18 @@ _PRELUDE = """#include <stdio.h>
 """
 
 
-def _compile_and_run(units):
-    """units: list of (fname, body lines, runnable).  Returns (status, stdout or message)."""
+_PRELUDE_CXX = """#include <cstdio>
+#include <cmath>
+#include <complex>
+"""
+
+
+def _compile_and_run(units, cxx=False):
+    """units: list of (fname, body lines, runnable).  Returns (status, stdout or message).
+    cxx: the units hold complex constants, which the mapper prints as std::complex<double>."""
     d = tempfile.mkdtemp(prefix="verif-c14-")
     try:
-        src = [_PRELUDE]
+        src = [_PRELUDE_CXX if cxx else _PRELUDE]
         for fname, body, runnable in units:
             src.append(f"static void {fname}(void) {{")
             src += [ln.replace("@FN@", fname) for ln in body]
@@ -1000,12 +1148,13 @@ def _compile_and_run(units):
             else:
                 src.append(f"  if (0) {fname}();")
         src.append("  return 0;\n}")
-        cpath = os.path.join(d, "t.c")
+        cpath = os.path.join(d, "t.cpp" if cxx else "t.c")
         with open(cpath, "w") as f:
             f.write("\n".join(src))
         exe = os.path.join(d, "t")
         try:
-            cp = subprocess.run(["gcc", "-O0", "-fwrapv", "-w", "-o", exe, cpath, "-lm"],
+            cp = subprocess.run(["g++" if cxx else "gcc", "-O0", "-fwrapv", "-w", "-o", exe,
+                                 cpath, "-lm"],
                                 capture_output=True, text=True, timeout=300)
         except (subprocess.TimeoutExpired, OSError) as e:
             return "harness", f"gcc did not run: {e}"
@@ -1029,8 +1178,17 @@ def post_batch(payloads, open_sigs):
     results = [None] * len(payloads)
     units = []
     index = {}
+    for cxx in (False, True):
+        _post_batch_lang(payloads, results, cxx)
+    return results
+
+
+def _post_batch_lang(payloads, results, cxx):
+    from .driver import HarnessError
+    units = []
+    index = {}
     for pi, pl in enumerate(payloads):
-        if pl is None:
+        if pl is None or (pl["kind"] == "cplx") != cxx:
             continue
         for fi, fn in enumerate(pl["funcs"]):
             name = f"f_{pi}_{fi}"
@@ -1038,7 +1196,9 @@ def post_batch(payloads, open_sigs):
             index[name] = (pi, fi)
     if not units:
         return results
-    status, out = _compile_and_run(units)
+    if cxx and shutil.which("g++") is None:
+        return results          # no C++ compiler: these programs are not compiled
+    status, out = _compile_and_run(units, cxx)
     if status == "harness":
         raise HarnessError(out)
     if status == "ok":
@@ -1046,10 +1206,10 @@ def post_batch(payloads, open_sigs):
         return results
     # something in the batch does not compile or crashes: isolate per payload
     for pi, pl in enumerate(payloads):
-        if pl is None:
+        if pl is None or (pl["kind"] == "cplx") != cxx:
             continue
         us = [(f"f_{pi}_{fi}", fn["body"], fn["runnable"]) for fi, fn in enumerate(pl["funcs"])]
-        st, o = _compile_and_run(us)
+        st, o = _compile_and_run(us, cxx)
         if st == "harness":
             raise HarnessError(o)
         if st == "ok":
@@ -1071,6 +1231,8 @@ def _compare(out, payloads, index, results):
         parts = ln.split()
         if len(parts) == 3 and parts[0] in index:
             got[(parts[0], int(parts[1]))] = parts[2]
+        elif len(parts) == 4 and parts[0] in index:
+            got[(parts[0], int(parts[1]))] = (parts[2], parts[3])
     for name, (pi, fi) in index.items():
         pl = payloads[pi]
         fn = pl["funcs"][fi]
@@ -1088,7 +1250,16 @@ def _compare(out, payloads, index, results):
                     res["violation"] = {"cls": "C14/program-crashed",
                                         "detail": {"missing_output": [name, j]}}
                 continue
-            if k == "int":
+            if k == "cplx":
+                res["probes"]["complex_values_compared"] = res["probes"].get(
+                    "complex_values_compared", 0) + 1
+                gv, wv = complex(float(g[0]), float(g[1])), complex(*want)
+                if not (abs(gv - wv) <= 1e-7 * max(1.0, abs(wv))) and res["violation"] is None:
+                    res["violation"] = {"cls": "C14/value-mismatch/complex", "detail": {
+                        "op": opi, "c_text": fn["texts"][j], "c_value": [gv.real, gv.imag],
+                        "evaluator": want,
+                        "assignments": [b for b in fn["body"] if "printf" not in b][-8:]}}
+            elif k == "int":
                 res["probes"]["int_values_compared"] = res["probes"].get("int_values_compared", 0) + 1
                 if int(g) != want and res["violation"] is None:
                     res["violation"] = {"cls": "C14/value-mismatch/int", "detail": {
